@@ -79,8 +79,8 @@ def gen_valid(rng, maxpus=256):
                 attrs.append("memorysidecachesize=%s" % _size(rng))
         if name in ("pu", "numa") and rng.random() < (0.55 if name == "pu" else 0.25):
             attrs.append("indexes=%s" % pu_indexes(rng, widths, names))
-        elif name in ("package", "core") and rng.random() < 0.1:
-            attrs.append("indexes=%s" % ",".join(map(str, _perm(rng, total))))
+        elif name != "pu" and rng.random() < 0.12:
+            attrs.append("indexes=%s" % (",".join(map(str, _perm(rng, total))) if rng.random() < 0.6 else pu_indexes(rng, widths, names)))
         if rng.random() < 0.03:
             attrs.append("bogus=1")
         item = "%s:%d" % (shown, ar)
@@ -186,6 +186,7 @@ HANDMADE = [
     "pu:4(indexes=2x2)", "pu:4(indexes=2*x)", "pu:4(indexes=2*)", "pu:4(indexes=2*2:x)", "pu:4(indexes=2*2:1*y)",
     "pack:6 [numa(indexes=1*3:2*2)] pu:1", "pu:6(indexes=1*3:2*2)", "pu:6(indexes=2*3:1*2)", "pu:4(indexes=1*2:1*2)", "pu:8(indexes=2*2:2*2)", "numa:6(indexes=1*3:2*2) pu:1",
     "pack:2 core:3 pu:2(indexes=2*3:2*2)", "pu:12(indexes=3*2:1*3:6*2)", "pu:12(indexes=3*2:1*3:2*2)",
+    "l2:2(indexes=7,5) pu:2", "pack:2 l2:2(indexes=7,5,3,1) pu:1", "group:3(indexes=2,0,1) pu:2", "l3:2 l2:2(indexes=2*2:1*2) pu:1", "pack:2 l1i:2(indexes=pack) pu:1", "pack:2 l1i:2(indexes=pack:l1i) pu:1", "group:2 l3:3(indexes=group) core:2 pu:1",
     "numa:2(indexes=1,0) pu:1", "numa:2 core:2 pu:1", "pack:2 numa:2 pu:1", "pack:1 numa:1 core:1 pu:1", "core:1 pack:1 pu:2", "l1:1 l2:1 pu:2",
 ]
 
@@ -497,4 +498,104 @@ def gen_attached_spec(rng, n):
         struct = [ty for ty in present if ty not in none and rng.random() < 0.15]
         fw = "l" + base + ("N" + ".".join(map(str, none)) if none else "") + ("S" + ".".join(map(str, struct)) if struct else "")
         out.append((" ".join(res), fw))
+    return out
+
+
+# ---------------------------------------------------------------------------
+# SPEC: indexes= on ANY level (caches and groups included): "os_index orderings are exactly those written".
+# Canonical descriptions with one indexes= attribute (explicit list or type names) on a level above the PUs;
+# object j of that level (written position) covers PUs j*k .. (j+1)*k-1 and must carry the written os_index.
+# ---------------------------------------------------------------------------
+LVL_TYPES = [("group", 13), ("pack", 1), ("die", 2), ("l3", 7), ("l2", 6), ("l1", 5), ("l1i", 10), ("core", 3)]
+_LVL_RE = re.compile(r"^(group|pack|die|l3|l2|l1|l1i|core|pu):(\d+)(?:\(indexes=([a-z0-9:,]+)\))?$")
+
+
+def lvl_expected(desc):
+    """-> (type number, sorted [(os_index, PUs)]) for the indexed level, or None"""
+    levels, idx = [], None
+    for tok in desc.split(" "):
+        m = _LVL_RE.match(tok)
+        if not m:
+            return None
+        name, ar, ix = m.group(1), int(m.group(2)), m.group(3)
+        if not 1 <= ar <= 64 or name in [l[0] for l in levels]:
+            return None
+        levels.append((name, ar))
+        if ix is not None:
+            if idx is not None or name == "pu":
+                return None
+            idx = (len(levels) - 1, ix)
+    if not levels or levels[-1][0] != "pu" or idx is None:
+        return None
+    k, ix = idx
+    width, w = [], 1
+    for _, ar in levels:
+        w *= ar
+        width.append(w)
+    total, npu = width[k], width[-1]
+    if npu > 4096:
+        return None
+    # a Group that brings no structure is merged by the core: not judged
+    if levels[k][0] == "group" and (levels[k][1] == 1 or levels[k + 1][1] == 1):
+        return None
+    if levels[k][0] == "die" and levels[k][1] == 1 and "pack" in [l[0] for l in levels]:
+        return None
+    if re.fullmatch(r"\d+(,\d+)*", ix):
+        osidx = [int(x) for x in ix.split(",")]
+        if len(osidx) != total or len(set(osidx)) != total:
+            return None
+    else:
+        names = ix.split(":")
+        depth = {n: i for i, (n, _) in enumerate(levels)}
+        if any(n not in depth or depth[n] >= k for n in names) or len(set(names)) != len(names):
+            return None
+        listed = [depth[n] for n in names]
+        osidx = []
+        for j in range(total):
+            v, mul = 0, 1
+            for d in listed:
+                anc = j // (total // width[d])
+                enclosing = [e for e in listed if e < d]
+                per = width[d] // (width[max(enclosing)] if enclosing else 1)
+                v += (anc % per) * mul
+                mul *= per
+            below = total // width[max(listed)]
+            v += (j % below) * mul
+            osidx.append(v)
+        if sorted(osidx) != list(range(total)):
+            return None
+    per = npu // total
+    return (dict(LVL_TYPES)[levels[k][0]], sorted((osidx[j], tuple(range(j * per, (j + 1) * per))) for j in range(total)))
+
+
+def gen_level_indexes_spec(rng, n):
+    out = []
+    for _ in range(n):
+        names = [nm for nm, _ in LVL_TYPES if rng.random() < 0.55]
+        if len(names) < 2:
+            names = ["group", "l2", "core"]
+        levels, tot = [], 1
+        for nm in names:
+            ar = rng.choice([2, 2, 3, 1])
+            if tot * ar > 64:
+                ar = 1
+            tot *= ar
+            levels.append((nm, ar))
+        levels.append(("pu", rng.choice([1, 2, 2])))
+        k = rng.randrange(len(names))
+        if rng.random() < 0.6:      # caches and groups first: that is where os_index is optional
+            cg = [i for i, nm in enumerate(names) if nm in ("group", "l3", "l2", "l1", "l1i")]
+            if cg:
+                k = rng.choice(cg)
+        w = 1
+        for _, ar in levels[:k + 1]:
+            w *= ar
+        if k > 0 and rng.random() < 0.4:
+            ix = ":".join(rng.sample(names[:k], rng.randint(1, min(3, k))))
+        else:
+            p = list(range(w))
+            rng.shuffle(p)
+            off = rng.choice([0, 0, 1, 10])
+            ix = ",".join(str(x + off) for x in p)
+        out.append(" ".join("%s:%d" % (nm, ar) + ("(indexes=%s)" % ix if i == k else "") for i, (nm, ar) in enumerate(levels)))
     return out
